@@ -210,6 +210,14 @@ def run_case(data):
             continue
         if op == 'other-settings':
             # a SETTINGS frame that does not mention the table size leaves a pending size change pending
+            if ch.chance(64):
+                # our own MAX_FRAME_SIZE is raised and acknowledged while streams exist: what we may *receive*
+                # has nothing to do with how our header blocks are sliced for the peer
+                o = s.call('update_settings', {wire.S_MAX_FRAME_SIZE: ch.pick([32768, 65536])})
+                o2 = s.feed(wire.settings(ack=True)) if o.ok else o
+                r.step('our MAX_FRAME_SIZE raised and acknowledged', o.brief(), o2.brief())
+                r.labels.add('local-max-frame-size-raised')
+                continue
             other = ch.pick([[], [(wire.S_MAX_CONCURRENT_STREAMS, 100)],
                              [(wire.S_INITIAL_WINDOW_SIZE, 70000), (0x4d, 1)],
                              [(wire.S_MAX_FRAME_SIZE, ch.pick([16384, 32768, 20000, 65536]))]])
@@ -358,6 +366,12 @@ def run_case(data):
                     r.violate('C13:valid-block-refused:pushed-response:%s' % o.exc_name, repr(o.exc)[:120])
                     check_raise(o, 'pushed-response')
             else:
+                if ch.chance(40):
+                    tr = []              # empty trailers: a block all the same (it carries a pending size update)
+                    r.labels.add('empty-trailers')
+                elif ch.chance(40):
+                    tr = tr + [(b'x-big', b'B' * ch.pick([16380, 17000, 33000]))]
+                    r.labels.add('multi-frame-block')
                 o = s.call('send_headers', sid, tr, end_stream=True)
                 r.step('trailers', sid, tr, o.brief())
                 if o.ok:
